@@ -17,14 +17,37 @@ from common import enc_ints, enc_rats, enc_crats, enc_rat, enc_crat, dec_list, d
 META = {
     'rule': 'cases = random dyadic CSR systems (n=1..8; unsorted/duplicated/missing-diagonal patterns, empty rows), '
             'every kernel x admissible sweep (forward/backward/strided/indexed) x omega x real/complex, plus the public '
-            'drivers x sweep x iterations x omega x CSR/BSR; a case is non-trivial when n >= 2 and the matrix has an '
-            'off-diagonal entry; distinct = distinct (operation, input) lines',
-    'search_only': ['block Jacobi/Gauss-Seidel, Schwarz, polynomial, normal-equation drivers: compared with an '
-                    'independent dense NumPy formula (tolerance 1e-9), not with a Lean model',
+            'drivers x sweep x iterations x omega x CSR/BSR; part D: block_jacobi / block_gauss_seidel (block size 1-3, CSR or '
+            'BSR input, unsorted/duplicated entries, given exact / arbitrary / default Dinv, missing diagonal blocks), polynomial '
+            '(zero and non-zero x, 1-4 coefficients), jacobi_ne / gauss_seidel_ne / gauss_seidel_nr (default and given Dinv, CSR and '
+            'CSC input), schwarz (given subdomains with arbitrary or inverse blocks, default parameters) and the raw block / Schwarz '
+            'kernels on strided sweeps, each against its Lean model (Model/ExtC09Block.lean); a case is non-trivial when n >= 2 '
+            'and the matrix has an off-diagonal entry; distinct = distinct (operation, input) lines. Complex data: stored diagonals, '
+            'given Dinv entries and the Jacobi damping parameter are scaled by Gaussian units, so purely imaginary, purely real and mixed '
+            'values occur side by side (exact in binary64) for every kernel incl. the indexed ones; the BSR point kernels (bsr_gauss_seidel, '
+            'bsr_jacobi, bsr_jacobi_indexed: missing diagonal blocks, zero diagonal entries inside stored blocks, unsorted block columns, '
+            'strided sweeps) are compared with the POINT models on the explicit row list; the public point drivers take CSR or BSR storage '
+            '(block indices for the indexed / coarse-fine routines). Part E: call histories of 2-4 public calls on ONE matrix object (CSR, '
+            'BSR of a block size dividing n, CSC): schwarz with different decompositions of equal shapes (other indices / other pointers / '
+            'the same again; given, inverse or internally computed sub-blocks) or default subdomains throughout; block_jacobi / '
+            'block_gauss_seidel / cf_ / fc_block_jacobi with and without Dinv and with another block size; jacobi_ne / gauss_seidel_ne / '
+            'gauss_seidel_nr with and without Dinv; polynomial with other coefficients of the same length; each call judged against the Lean '
+            'model and the dense formula for ITS arguments',
+    'search_only': ['cf_block_jacobi / fc_block_jacobi (block_jacobi_indexed kernel): compared with an independent dense NumPy formula '
+                    '(tolerance 1e-8 normwise; part C and the histories of part E), not with a Lean model',
+                    'single-precision complex (complex64) jacobi / gauss_seidel, CSR and BSR: dense formula, tolerance 2e-4',
+                    'schwarz call histories that mix default and given subdomains, or decompositions of different total length, on one '
+                    'matrix object are NOT generated (the unchanged code raises / reuses the cached decomposition there; reported)',
+                    'default inverse blocks (Dinv=None, inv_subblock=None: pyamg inverts with its SVD kernel / LAPACK gelss): the '
+                    'model is fed the exact rational inverses computed by the harness and compared within 1e-9, not bit-exactly',
                     'single precision: tolerance comparison only'],
     'partial': [],
     'assumptions': ['floating-point rounding is outside the model: kernels are compared on dyadic inputs where binary64 '
-                    'arithmetic is exact; block inverses (LAPACK pinv) are taken as exact inverses'],
+                    'arithmetic is exact (bit-exact agreement is counted as feature bit_exact / ext:bit_exact; otherwise 1e-9); '
+                    'inverse blocks are INPUTS of the block / Schwarz models; the theorems assume they are exact inverses '
+                    '(LeftInv / RightInv / SubRightInv), which the generator establishes exactly for the dyadic-invertible families',
+                    'the SciPy conversions A.tobsr / A.tocsc are modelled (Csr.toBsr, Csr.toCsc) and compared array by array with '
+                    'SciPy, but no theorem relates them to the CSR rows'],
 }
 
 
@@ -64,16 +87,45 @@ def _hdr(A, cplx):
 
 KERNELS = ['gs', 'sor', 'jac', 'jaci', 'gsi', 'gsne', 'gsnr', 'jacne']
 
+# Gaussian units / half-units: multiplying or dividing a dyadic number by one of them is exact in binary64
+# (|s|^2 is 1 or 2), so the bit-exact comparison with the Lean models extends to diagonals with an exactly zero
+# real part, an exactly zero imaginary part, or both parts non-zero
+_CUNITS = [1, 1j, -1j, 1j, 1 + 1j, -1 + 1j, 1 - 1j, -1]
+
+
+def _cdiag(rng, A, feats=None, p=0.75):
+    """scale the stored diagonal entries of the complex CSR matrix A in place, row by row, by a random Gaussian unit
+    (purely imaginary, mixed or real diagonals side by side in one matrix)"""
+    n = A.shape[0]
+    s = np.array([_CUNITS[int(k)] if rng.random() < p else 1 for k in rng.integers(0, len(_CUNITS), size=n)], dtype=complex)
+    for i in range(n):
+        for k in range(A.indptr[i], A.indptr[i + 1]):
+            if A.indices[k] == i:
+                A.data[k] = A.data[k] * s[i]
+                if feats is not None and A.data[k] != 0:
+                    feats.add('diag:imaginary' if A.data[k].real == 0 else ('diag:real' if A.data[k].imag == 0 else 'diag:mixed'))
+    return A
+
+
+def _cscalar(rng, v):
+    """a complex variant of the dyadic scalar v: v, v*i, v*(1+i)/2 ... (exact)"""
+    return complex(v) * complex(rng.choice([1, 1, 1j, -1j, 0.5 + 0.5j]))
+
 
 def raw_case(rng, kind, cplx, t):
     from pyamg import amg_core
     n = int(rng.integers(1, 9))
     A, feats = gen.rand_dyadic_csr(rng, n, complex_=cplx, unsorted=(t % 3 == 0), duplicates=(t % 5 == 0))
+    if cplx:
+        _cdiag(rng, A, feats)
     dt = complex if cplx else float
     b = gen.rand_vec(rng, n, cplx)
     x = gen.rand_vec(rng, n, cplx)
     (s0, s1, s2), swk = gen.admissible_sweep(rng, n)
     om = float(rng.choice([1.0, 0.5, 1.5, 0.25]))
+    if cplx and kind in ('jac', 'jaci', 'jacne') and rng.random() < 0.4:
+        om = _cscalar(rng, om)          # the Jacobi kernels take the damping parameter in the matrix type
+        feats.add('omega:complex')
     ev = enc_crats if cplx else enc_rats
     pre = 'c' if cplx else ''
     hdr = _hdr(A, cplx)
@@ -93,13 +145,15 @@ def raw_case(rng, kind, cplx, t):
     elif kind == 'jac':
         temp = np.zeros(n, dtype=dt)
         amg_core.jacobi(Ap, Aj, Ax, xx, bb, temp, s0, s1, s2, np.array([om], dtype=dt))
-        line = f'{pre}jac {enc_rat(om)} {hdr} {ev(b)} {ev(x)} {s0} {s1} {s2}'
+        line = (f'c09_c_jac {enc_crat(om)} {hdr} {ev(b)} {ev(x)} {s0} {s1} {s2}' if cplx else
+                f'jac {enc_rat(om)} {hdr} {ev(b)} {ev(x)} {s0} {s1} {s2}')
         out = xx
     elif kind == 'jaci':
         idx = rng.integers(0, n, size=rng.integers(0, n + 2)).astype(np.int32)
         case['idx'] = idx.tolist()
         amg_core.jacobi_indexed(Ap, Aj, Ax, xx, bb, idx, np.array([om], dtype=dt))
-        line = f'jaci {enc_rat(om)} {hdr} {ev(b)} {ev(x)} {enc_ints(idx)}'
+        line = (f'c09_c_jaci {enc_crat(om)} {hdr} {ev(b)} {ev(x)} {enc_ints(idx)}' if cplx else
+                f'jaci {enc_rat(om)} {hdr} {ev(b)} {ev(x)} {enc_ints(idx)}')
         out = xx
     elif kind == 'gsi':
         idx = rng.integers(0, n, size=rng.integers(1, n + 2)).astype(np.int32)
@@ -108,10 +162,12 @@ def raw_case(rng, kind, cplx, t):
         case['idx'] = idx.tolist()
         case['sweep'] = [a0, a1, a2]
         amg_core.gauss_seidel_indexed(Ap, Aj, Ax, xx, bb, idx, a0, a1, a2)
-        line = f'gsi {hdr} {ev(b)} {ev(x)} {enc_ints(idx)} {a0} {a1} {a2}'
+        line = f'{"c09_c_gsi" if cplx else "gsi"} {hdr} {ev(b)} {ev(x)} {enc_ints(idx)} {a0} {a1} {a2}'
         out = xx
     elif kind == 'gsne':
         dinv = rng.choice([1, 0.5, 0.25, 2], size=n).astype(dt)
+        if cplx and rng.random() < 0.5:     # the kernel takes Dinv in the matrix type: purely imaginary / mixed entries
+            dinv = dinv * rng.choice([1, 1j, -1j, 1 + 1j], size=n)
         case['dinv'] = dinv.tolist()
         omv = om
         amg_core.gauss_seidel_ne(Ap, Aj, Ax, xx, bb, s0, s1, s2, dinv, omv)
@@ -119,6 +175,8 @@ def raw_case(rng, kind, cplx, t):
         out = xx
     elif kind == 'gsnr':
         dinv = rng.choice([1, 0.5, 0.25, 2], size=n).astype(dt)
+        if cplx and rng.random() < 0.5:     # the kernel takes Dinv in the matrix type: purely imaginary / mixed entries
+            dinv = dinv * rng.choice([1, 1j, -1j, 1 + 1j], size=n)
         case['dinv'] = dinv.tolist()
         r = bb.copy()
         omv = om
@@ -139,6 +197,77 @@ def raw_case(rng, kind, cplx, t):
             'nontrivial': nontrivial, 'cplx': cplx}
 
 
+BSR_KERNELS = ['bgs', 'bjac', 'bjaci']
+
+
+def _block_rows(brows, bs, backward):
+    """the point rows a BSR point kernel relaxes, in its order: block rows in sweep order, the rows of a block in sweep direction"""
+    ks = list(range(bs - 1, -1, -1)) if backward else list(range(bs))
+    return [int(i) * bs + k for i in brows for k in ks]
+
+
+def raw_bsr_case(rng, kind, cplx, t):
+    """bsr_gauss_seidel / bsr_jacobi / bsr_jacobi_indexed on the BSR storage of a dyadic matrix (missing diagonal blocks, stored
+    blocks with zero diagonal entries, unsorted block columns) against the POINT models on the explicit row list"""
+    from pyamg import amg_core
+    bs = int(rng.choice([1, 2, 2, 3]))
+    nb = int(rng.integers(1, 5 if bs < 3 else 3))
+    n = bs * nb
+    A, feats = gen.rand_dyadic_csr(rng, n, complex_=cplx)
+    if cplx:
+        _cdiag(rng, A, feats)
+    M = A.toarray()
+    for k in range(nb):
+        if rng.random() < 0.15:
+            M[k * bs:(k + 1) * bs, k * bs:(k + 1) * bs] = 0
+            feats.add('missing_diag_block')
+    A = gen.int32csr(sp.csr_array(M))
+    B = A.tobsr(blocksize=(bs, bs))
+    Bp, Bj, Bx = B.indptr.astype(np.int32), B.indices.astype(np.int32), B.data.copy()
+    if t % 2 == 0:
+        for i in range(nb):
+            p = rng.permutation(Bp[i + 1] - Bp[i])
+            Bj[Bp[i]:Bp[i + 1]] = Bj[Bp[i]:Bp[i + 1]][p]
+            Bx[Bp[i]:Bp[i + 1]] = Bx[Bp[i]:Bp[i + 1]][p]
+        feats.add('unsorted')
+    dt = complex if cplx else float
+    Bx = np.ravel(Bx).astype(dt)
+    b = gen.rand_vec(rng, n, cplx).astype(dt)
+    x = gen.rand_vec(rng, n, cplx).astype(dt)
+    om = float(rng.choice([1.0, 0.5, 1.5, 0.25]))
+    if cplx and rng.random() < 0.4:
+        om = _cscalar(rng, om)
+        feats.add('omega:complex')
+    (s0, s1, s2), swk = gen.admissible_sweep(rng, nb)
+    ev = enc_crats if cplx else enc_rats
+    P = 'c09_c_' if cplx else 'c09_r_'
+    eo = enc_crat if cplx else enc_rat
+    hdr = _hdr(A, cplx)
+    case = {'kernel': kind, 'complex': cplx, 'n': n, 'bs': bs, 'indptr': A.indptr.tolist(), 'indices': A.indices.tolist(),
+            'data': A.data.tolist(), 'b': b.tolist(), 'x': x.tolist(), 'sweep': [int(s0), int(s1), int(s2)], 'omega': om,
+            'bsr_indptr': Bp.tolist(), 'bsr_indices': Bj.tolist()}
+    xx = x.copy()
+    if kind == 'bgs':
+        rows = _block_rows(range(s0, s1, s2), bs, s2 < 0)
+        amg_core.bsr_gauss_seidel(Bp, Bj, Bx, xx, b, s0, s1, s2, bs)
+        line = f'{P}gsrows {hdr} {ev(b)} {ev(x)} {enc_ints(rows)}'
+    elif kind == 'bjac':
+        rows = _block_rows(range(s0, s1, s2), bs, s2 < 0)
+        temp = gen.rand_vec(rng, n, cplx).astype(dt)
+        amg_core.bsr_jacobi(Bp, Bj, Bx, xx, b, temp, s0, s1, s2, bs, np.array([om], dtype=dt))
+        line = f'{P}jacrows {eo(om)} {hdr} {ev(b)} {ev(x)} {enc_ints(rows)}'
+    else:
+        idx = rng.integers(0, nb, size=rng.integers(0, nb + 2)).astype(np.int32)
+        case['idx'] = idx.tolist()
+        rows = _block_rows(idx, bs, False)
+        amg_core.bsr_jacobi_indexed(Bp, Bj, Bx, xx, b, idx, bs, np.array([om], dtype=dt))
+        line = f'{P}jacrows {eo(om)} {hdr} {ev(b)} {ev(x)} {enc_ints(rows)}'
+    case['rows'] = rows
+    nontrivial = n >= 2 and A.nnz > np.count_nonzero(M.diagonal())
+    return {'line': line, 'out': xx, 'case': case, 'feats': feats | {swk, 'complex' if cplx else 'real', f'bs:{bs}', 'omega!=1' if om != 1 else 'omega=1'},
+            'nontrivial': nontrivial, 'cplx': cplx}
+
+
 def _parse_model(s, cplx):
     f = dec_crat if cplx else dec_rat
     return [v for part in s.split(';') for v in dec_list(part, f)]
@@ -147,10 +276,11 @@ def _parse_model(s, cplx):
 def part_a(ctx, N):
     rng = ctx.np_rng
     items = []
+    kernels = KERNELS + BSR_KERNELS
     for t in range(N):
-        kind = KERNELS[t % len(KERNELS)]
-        cplx = (t // len(KERNELS)) % 3 == 2 and kind in ('gs', 'sor', 'jac', 'gsne', 'gsnr', 'jacne')
-        items.append(raw_case(rng, kind, cplx, t))
+        kind = kernels[t % len(kernels)]
+        cplx = (t // len(kernels)) % 3 == 2
+        items.append((raw_bsr_case if kind in BSR_KERNELS else raw_case)(rng, kind, cplx, t))
     outs = ctx.lean([it['line'] for it in items])
     for it, o in zip(items, outs):
         ctx.case(key=hashlib.sha1(it['line'].encode()).hexdigest(), nontrivial=it['nontrivial'],
@@ -166,7 +296,9 @@ def part_a(ctx, N):
             ctx.feat('bit_exact')
         if not close:
             ctx.corr('raw-kernel ' + it['case']['kernel'], it['case'], o, np.asarray(it['out']).tolist())
-            # the kernel disagrees with the model; is the splitting formula itself violated?
+        if not close or (len(it['line']) + it['case']['n']) % 6 == 0:
+            # the kernel disagrees with the model: is the splitting formula itself violated?  (a sample of the agreeing
+            # cases is judged too, so that the dense oracle is exercised on every run)
             judge_raw(ctx, it)
 
 
@@ -174,9 +306,49 @@ def judge_raw(ctx, it):
     """independent dense judgement of a raw-kernel result (GS/SOR/Jacobi rows) -> violation if the
     defining splitting update is not what the kernel computed"""
     c = it['case']
-    if c['kernel'] not in ('gs', 'sor', 'jac'):
-        return
     n = c['n']
+    if c['kernel'] in BSR_KERNELS:
+        D = gen.csr_from_arrays(n, c['indptr'], c['indices'], np.array(c['data'], dtype=complex if c['complex'] else float)).toarray()
+        x = np.array(c['x'], dtype=D.dtype)
+        b = np.array(c['b'], dtype=D.dtype)
+        ref = (_dense_gs(D, x, b, c['rows'], 1.0) if c['kernel'] == 'bgs' else _dense_jac(D, x, b, c['rows'], c['omega']))
+        if not np.allclose(ref, it['out'], rtol=1e-9, atol=1e-9):
+            ctx.violation(f'kernel {c["kernel"]} (BSR storage, blocksize {c["bs"]}) does not compute the point-wise splitting update: '
+                          f'expected {ref.tolist()} got {np.asarray(it["out"]).tolist()}', {'kind': 'raw', **c})
+        return
+    if c['kernel'] in ('jaci', 'gsi', 'gsne', 'gsnr', 'jacne'):
+        D = gen.csr_from_arrays(n, c['indptr'], c['indices'], np.array(c['data'], dtype=complex if c['complex'] else float)).toarray()
+        x = np.array(c['x'], dtype=D.dtype)
+        b = np.array(c['b'], dtype=D.dtype)
+        om = c['omega']
+        if c['kernel'] in ('jaci', 'gsi'):
+            diag_cnt = [sum(1 for k in range(c['indptr'][i], c['indptr'][i + 1]) if c['indices'][k] == i) for i in range(n)]
+            if max(diag_cnt, default=0) > 1:
+                return
+            if c['kernel'] == 'jaci':
+                ref = _dense_jac(D, x, b, c['idx'], om)
+            else:
+                ref = _dense_gs(D, x, b, [c['idx'][p] for p in range(*c['sweep'])], 1.0)
+        elif c['kernel'] == 'jacne':
+            ref = x + om * (D.conj().T @ np.array(c['delta'], dtype=D.dtype))
+        else:
+            di = np.array(c['dinv'], dtype=D.dtype)
+            rows = list(range(*c['sweep']))
+            ref = x.copy()
+            if c['kernel'] == 'gsne':
+                for i in rows:
+                    ref = ref + ((b[i] - D[i] @ ref) * di[i] * om) * D[i].conj()
+            else:       # the arrays are read as CSC: the matrix is D^T, the second vector is the running residual
+                B, r = D.T, b.copy()
+                for i in rows:
+                    delta = (B[:, i].conj() @ r) * di[i] * om
+                    ref[i] += delta
+                    r = r - delta * B[:, i]
+                ref = np.concatenate([ref, r])
+        if not np.allclose(ref, it['out'], rtol=1e-9, atol=1e-9):
+            ctx.violation(f'kernel {c["kernel"]} does not compute its defining update: expected {ref.tolist()} got {np.asarray(it["out"]).tolist()}',
+                          {'kind': 'raw', **c})
+        return
     A = gen.csr_from_arrays(n, c['indptr'], c['indices'], np.array(c['data'], dtype=complex if c['complex'] else float))
     diag_cnt = [sum(1 for k in range(A.indptr[i], A.indptr[i + 1]) if A.indices[k] == i) for i in range(n)]
     if max(diag_cnt, default=0) > 1:
@@ -189,7 +361,8 @@ def judge_raw(ctx, it):
     om = c['omega'] if c['kernel'] != 'gs' else 1.0
     ref = x.copy()
     if c['kernel'] == 'jac':
-        old = x.copy()
+        old = np.zeros_like(x)      # the kernel copies only the swept rows into its (zeroed) work vector
+        old[rows] = x[rows]
         for i in rows:
             if D[i, i] != 0:
                 ref[i] = (1 - om) * old[i] + om * (b[i] - (D[i] @ old - D[i, i] * old[i])) / D[i, i]
@@ -210,10 +383,13 @@ def part_b(ctx, N):
     from pyamg.relaxation import relaxation as R
     rng = ctx.np_rng
     items = []
+    FNS = ['gauss_seidel', 'sor', 'jacobi', 'gauss_seidel_indexed', 'jacobi_indexed', 'cf_jacobi', 'fc_jacobi']
     for t in range(N):
         n = int(rng.integers(1, 8))
-        cplx = t % 7 == 6
+        cplx = (t // len(FNS)) % 3 == 2
         A, feats = gen.rand_dyadic_csr(rng, n, complex_=cplx, unsorted=(t % 4 == 0))
+        if cplx:
+            _cdiag(rng, A, feats)
         dt = complex if cplx else float
         b = gen.rand_vec(rng, n, cplx).astype(dt)
         x = gen.rand_vec(rng, n, cplx).astype(dt)
@@ -221,52 +397,67 @@ def part_b(ctx, N):
         iters = int(rng.integers(1, 4))
         sweep = str(rng.choice(['forward', 'backward', 'symmetric']))
         ev = enc_crats if cplx else enc_rats
+        eo = enc_crat if cplx else enc_rat
         hdr = _hdr(A, cplx)
-        kind = ['gauss_seidel', 'sor', 'jacobi', 'gauss_seidel_indexed', 'jacobi_indexed', 'cf_jacobi', 'fc_jacobi'][t % 7]
-        if cplx and kind not in ('gauss_seidel', 'sor', 'jacobi'):
-            kind = ['gauss_seidel', 'sor', 'jacobi'][t % 3]
+        kind = FNS[t % len(FNS)]
+        if cplx and kind in ('jacobi', 'jacobi_indexed', 'cf_jacobi', 'fc_jacobi') and rng.random() < 0.4:
+            om = _cscalar(rng, om)
+            feats.add('omega:complex')
+        # storage: the same matrix as BSR with a block size dividing n (the indexed routines then take BLOCK indices)
+        bs = 0
+        if kind != 'gauss_seidel_indexed' and rng.random() < 0.35:
+            bs = int(rng.choice([d for d in (1, 2, 3) if n % d == 0]))
+        nb = n // bs if bs else n
         case = {'fn': kind, 'complex': cplx, 'n': n, 'indptr': A.indptr.tolist(), 'indices': A.indices.tolist(),
-                'data': A.data.tolist(), 'b': b.tolist(), 'x': x.tolist(), 'omega': om, 'iterations': iters, 'sweep': sweep}
+                'data': A.data.tolist(), 'b': b.tolist(), 'x': x.tolist(), 'omega': om, 'iterations': iters, 'sweep': sweep, 'bsr_blocksize': bs}
+        Ain = A
+        if bs:
+            Ain = A.tobsr(blocksize=(bs, bs))
+            feats.add(f'storage:bsr{bs}')
+        expand = (lambda ix: _block_rows(ix, bs, False)) if bs else (lambda ix: [int(v) for v in ix])
         xx = x.copy()
-        hA, hb = _h(A.data), _h(b)
+        hA, hb, hAin = _h(A.data), _h(b), _h(Ain.data)
         pre = 'c' if cplx else ''
         if kind == 'gauss_seidel':
-            R.gauss_seidel(A, xx, b, iterations=iters, sweep=sweep, omega=om)
+            R.gauss_seidel(Ain, xx, b, iterations=iters, sweep=sweep, omega=om)
             line = f'{pre}pygs {enc_rat(om)} {hdr} {ev(b)} {ev(x)} {iters} {sweep}'
         elif kind == 'sor':
-            R.sor(A, xx, b, om, iterations=iters, sweep=sweep)
+            R.sor(Ain, xx, b, om, iterations=iters, sweep=sweep)
             line = f'{pre}pygs {enc_rat(om)} {hdr} {ev(b)} {ev(x)} {iters} {sweep}'
         elif kind == 'jacobi':
-            R.jacobi(A, xx, b, iterations=iters, omega=om)
-            line = f'{pre}pyjac {(enc_crat if cplx else enc_rat)(om)} {hdr} {ev(b)} {ev(x)} {iters}'
+            R.jacobi(Ain, xx, b, iterations=iters, omega=om)
+            line = f'{pre}pyjac {eo(om)} {hdr} {ev(b)} {ev(x)} {iters}'
         elif kind == 'gauss_seidel_indexed':
-            idx = rng.integers(0, n, size=rng.integers(1, n + 2)).astype(np.int32)
+            idx = rng.integers(0, n, size=rng.integers(0, n + 2)).astype(np.int32)
             case['idx'] = idx.tolist()
             R.gauss_seidel_indexed(A, xx, b, idx, iterations=iters, sweep=sweep)
-            line = f'pygsi {hdr} {ev(b)} {ev(x)} {enc_ints(idx)} {iters} {sweep}'
+            line = f'{"c09_c_pygsi" if cplx else "pygsi"} {hdr} {ev(b)} {ev(x)} {enc_ints(idx)} {iters} {sweep}'
         elif kind == 'jacobi_indexed':
-            idx = rng.integers(0, n, size=rng.integers(1, n + 2)).astype(np.int32)
-            case['idx'] = idx.tolist()
-            R.jacobi_indexed(A, xx, b, idx, iterations=iters, omega=om)
-            line = f'pyjaci {enc_rat(om)} {hdr} {ev(b)} {ev(x)} {enc_ints(idx)} {iters}'
+            # (BSR storage: a non-empty index set; the unchanged code raises on an empty one -- reported, not generated)
+            idx = rng.integers(0, nb, size=rng.integers(1 if bs else 0, nb + 2)).astype(np.int32)
+            case['block_idx'], case['idx'] = idx.tolist(), expand(idx)
+            R.jacobi_indexed(Ain, xx, b, idx, iterations=iters, omega=om)
+            line = f'{"c09_c_pyjaci" if cplx else "pyjaci"} {eo(om)} {hdr} {ev(b)} {ev(x)} {enc_ints(case["idx"])} {iters}'
         else:
-            perm = rng.permutation(n)
-            k = int(rng.integers(0, n + 1))
+            perm = rng.permutation(nb)
+            k = int(rng.integers(0, nb + 1))
             C, F = np.sort(perm[:k]).astype(np.int32), np.sort(perm[k:]).astype(np.int32)
             fit, cit = int(rng.integers(1, 3)), int(rng.integers(1, 3))
-            case.update({'Cpts': C.tolist(), 'Fpts': F.tolist(), 'f_iterations': fit, 'c_iterations': cit})
+            case.update({'block_Cpts': C.tolist(), 'block_Fpts': F.tolist(), 'Cpts': expand(C), 'Fpts': expand(F),
+                         'f_iterations': fit, 'c_iterations': cit})
             fn = R.cf_jacobi if kind == 'cf_jacobi' else R.fc_jacobi
-            fn(A, xx, b, C, F, iterations=iters, f_iterations=fit, c_iterations=cit, omega=om)
-            line = (f'pycfjac {1 if kind == "cf_jacobi" else 0} {enc_rat(om)} {hdr} {ev(b)} {ev(x)} {enc_ints(C)} {enc_ints(F)} '
-                    f'{iters} {fit} {cit}')
-        if _h(A.data) != hA or _h(b) != hb:
+            fn(Ain, xx, b, C, F, iterations=iters, f_iterations=fit, c_iterations=cit, omega=om)
+            line = (f'{"c09_c_pycfjac" if cplx else "pycfjac"} {1 if kind == "cf_jacobi" else 0} {eo(om)} {hdr} {ev(b)} {ev(x)} '
+                    f'{enc_ints(case["Cpts"])} {enc_ints(case["Fpts"])} {iters} {fit} {cit}')
+        if _h(A.data) != hA or _h(b) != hb or _h(Ain.data) != hAin:
             ctx.violation(f'{kind} modified its matrix or right-hand side', {'kind': 'public', **case})
         nontriv = n >= 2 and A.nnz > n
         items.append({'line': line, 'out': xx, 'case': case, 'cplx': cplx, 'nontrivial': nontriv,
-                      'feats': feats | {'fn:' + kind, 'sweep:' + sweep, f'iters:{iters}', 'omega!=1' if om != 1 else 'omega=1'}})
+                      'feats': feats | {'fn:' + kind, 'sweep:' + sweep, f'iters:{iters}', 'omega!=1' if om != 1 else 'omega=1',
+                                        'complex' if cplx else 'real'}})
     outs = ctx.lean([it['line'] for it in items])
     for it, o in zip(items, outs):
-        ctx.case(key=hashlib.sha1(it['line'].encode()).hexdigest(), nontrivial=it['nontrivial'],
+        ctx.case(key=hashlib.sha1((it['line'] + f' storage={it["case"]["bsr_blocksize"]}').encode()).hexdigest(), nontrivial=it['nontrivial'],
                  sample={'request': it['line'][:300], 'model': o[:120], 'impl': np.asarray(it['out']).tolist()[:8]})
         for f in it['feats']:
             ctx.feat(f)
@@ -275,6 +466,7 @@ def part_b(ctx, N):
             ctx.feat('bit_exact')
         if not close:
             ctx.corr('public ' + it['case']['fn'], it['case'], o, np.asarray(it['out']).tolist())
+        if not close or (len(it['line']) + it['case']['n']) % 6 == 0:
             judge_public(ctx, it['case'], it['out'])
 
 
@@ -368,6 +560,8 @@ def _well_system(rng, n, cplx, bs=1):
     if cplx:
         M = M + 1j * (rng.random((n, n)) < 0.3) * rng.integers(-2, 3, size=(n, n))
     M[np.arange(n), np.arange(n)] = np.abs(M).sum(1) + rng.integers(1, 4, size=n)
+    if cplx:    # dominant diagonals with an exactly zero real part, an exactly zero imaginary part, or neither
+        M[np.arange(n), np.arange(n)] *= np.array([_CUNITS[int(k)] for k in rng.integers(0, len(_CUNITS), size=n)])
     return M
 
 
@@ -389,7 +583,7 @@ def part_c(ctx, N):
         iters = int(rng.integers(1, 3))
         sweep = str(rng.choice(['forward', 'backward', 'symmetric']))
         method = ['bsr_gs', 'bsr_jacobi', 'block_jacobi', 'block_gauss_seidel', 'jacobi_ne', 'gauss_seidel_ne',
-                  'gauss_seidel_nr', 'polynomial', 'schwarz', 'fixed_point', 'cf_block_jacobi', 'float32'][t % 12]
+                  'gauss_seidel_nr', 'polynomial', 'schwarz', 'fixed_point', 'cf_block_jacobi', 'float32', 'complex64'][t % 13]
         case = {'method': method, 'n': n, 'bs': bs, 'complex': cplx, 'M': M.tolist() if not cplx else [[[v.real, v.imag] for v in r] for r in M],
                 'b': b.tolist(), 'x': x0.tolist(), 'omega': om, 'iterations': iters, 'sweep': sweep}
         key = (method, sweep, bs, cplx, om != 1, iters)
@@ -532,6 +726,8 @@ def part_c(ctx, N):
                 # symmetric pattern required for the default subdomains (one per row: the row's pattern)
                 Ms = M + M.conj().T
                 Ms[np.arange(n), np.arange(n)] = np.abs(Ms).sum(1) + 1
+                if cplx:
+                    Ms[np.arange(n), np.arange(n)] *= np.array([_CUNITS[int(k)] for k in rng.integers(0, len(_CUNITS), size=n)])
                 As = gen.int32csr(sp.csr_array(Ms))
                 case['M'] = Ms.tolist() if not cplx else [[[v.real, v.imag] for v in r] for r in Ms]
                 Ds = Ms.astype(dt)
@@ -570,8 +766,10 @@ def part_c(ctx, N):
                         x = v
                         fail(f'the exact solution is not a fixed point of {nm}', xs)
             elif method == 'float32':
-                A32 = gen.int32csr(sp.csr_array(M.real.astype(np.float32)))
-                D32 = M.real.astype(np.float64)
+                Mr = M.real.copy()
+                Mr[np.arange(n), np.arange(n)] = np.round(np.abs(M.diagonal()))     # keep the real system diagonally dominant
+                A32 = gen.int32csr(sp.csr_array(Mr.astype(np.float32)))
+                D32 = Mr.astype(np.float64)
                 x = x0.real.astype(np.float32)
                 b32 = b.real.astype(np.float32)
                 R.gauss_seidel(A32, x, b32, iterations=iters, sweep=sweep, omega=om)
@@ -583,21 +781,960 @@ def part_c(ctx, N):
                         ref = _dense_gs(D32, ref, b.real, bwd, om)
                 if x.dtype != np.float32 or not np.allclose(x, ref, rtol=2e-4, atol=2e-4):
                     fail('single-precision Gauss-Seidel differs from the splitting update', ref)
+            elif method == 'complex64':
+                # single-precision complex data (diagonals purely imaginary / real / mixed), CSR and BSR storage
+                Mc = _well_system(rng, n, True)
+                case['M'], case['complex'] = [[[v.real, v.imag] for v in r] for r in Mc], True
+                A64 = gen.int32csr(sp.csr_array(Mc.astype(np.complex64)))
+                xc0 = (x0 + (0 if cplx else 1j) * gen.rand_vec(rng, n, False)).astype(np.complex64)
+                bc = (b + (0 if cplx else 1j) * gen.rand_vec(rng, n, False)).astype(np.complex64)
+                case['x'], case['b'] = xc0.astype(complex).tolist(), bc.astype(complex).tolist()
+                Dc, bcd = Mc.astype(complex), bc.astype(complex)
+                for nm, stor in [('jacobi', 'csr'), ('gauss_seidel', 'csr'), ('jacobi', 'bsr'), ('gauss_seidel', 'bsr')]:
+                    Ain = A64 if stor == 'csr' else A64.tobsr(blocksize=(bs, bs))
+                    x = xc0.copy()
+                    ref = xc0.astype(complex)
+                    if nm == 'jacobi':
+                        R.jacobi(Ain, x, bc, iterations=iters, omega=om)
+                        for _ in range(iters):
+                            ref = _dense_jac(Dc, ref, bcd, fwd, om)
+                    else:
+                        R.gauss_seidel(Ain, x, bc, iterations=iters, sweep=sweep, omega=om)
+                        for _ in range(iters):
+                            if sweep in ('forward', 'symmetric'):
+                                ref = _dense_gs(Dc, ref, bcd, fwd, om)
+                            if sweep in ('backward', 'symmetric'):
+                                ref = _dense_gs(Dc, ref, bcd, bwd, om)
+                    if x.dtype != np.complex64 or not np.allclose(x, ref, rtol=2e-4, atol=2e-4):
+                        fail(f'single-precision complex {nm} ({stor} storage) differs from the splitting update', ref)
         except Exception as e:   # a public relaxation call must not raise on a valid system
             fail(f'raised {type(e).__name__}: {e}')
         if _h(A.data) != hA or _h(b) != hb:
             fail('the matrix or the right-hand side was modified')
 
 
+# ------------------------------------------------------------------------------------------------
+# part D (extension E15): block / polynomial / normal-equation / Schwarz drivers vs the Lean models of
+# Model/ExtC09Block.lean.  Inverse blocks are inputs of the models: the harness computes them exactly
+# (Fractions) or passes the very floats it hands to pyamg.
+# ------------------------------------------------------------------------------------------------
+
+from fractions import Fraction
+
+EXT_METHODS = ['block_jacobi', 'block_gauss_seidel', 'polynomial', 'jacobi_ne', 'gauss_seidel_ne', 'gauss_seidel_nr',
+               'schwarz', 'k_block_jacobi', 'k_block_gauss_seidel', 'k_schwarz', 'tobsr', 'tocsc']
+
+
+def _jl(a):
+    """array -> JSON-able list (complex entries as [re, im])"""
+    a = np.asarray(a)
+    if np.iscomplexobj(a):
+        return [[float(v.real), float(v.imag)] for v in a.ravel()]
+    return [float(v) for v in a.ravel()]
+
+
+def _ja(lst, cplx):
+    if cplx:
+        return np.array([complex(v[0], v[1]) if isinstance(v, (list, tuple)) else complex(v) for v in lst], dtype=complex)
+    return np.array(lst, dtype=float)
+
+
+def _encq(v):
+    """Fraction | (Fraction, Fraction) | float | complex -> protocol scalar"""
+    if isinstance(v, tuple):
+        return enc_rat(v[0]) + '|' + enc_rat(v[1])
+    if isinstance(v, Fraction):
+        return enc_rat(v)
+    if isinstance(v, (complex, np.complexfloating)):
+        return enc_crat(v)
+    return enc_rat(v)
+
+
+def _encqs(vs, cplx):
+    vs = list(vs)
+    if not vs:
+        return '-'
+    out = []
+    for v in vs:
+        if cplx and not isinstance(v, tuple):
+            v = (frac(complex(v).real), frac(complex(v).imag)) if not isinstance(v, Fraction) else (v, Fraction(0))
+        out.append(_encq(v))
+    return ','.join(out)
+
+
+def _frac_inv(M):
+    """exact inverse of a square list-of-lists of Fractions (Gauss-Jordan); None if singular"""
+    m = len(M)
+    a = [list(r) + [Fraction(int(i == j)) for j in range(m)] for i, r in enumerate(M)]
+    for c in range(m):
+        p = next((r for r in range(c, m) if a[r][c] != 0), None)
+        if p is None:
+            return None
+        a[c], a[p] = a[p], a[c]
+        pv = a[c][c]
+        a[c] = [v / pv for v in a[c]]
+        for r in range(m):
+            if r != c and a[r][c] != 0:
+                f = a[r][c]
+                a[r] = [v - f * w for v, w in zip(a[r], a[c])]
+    return [r[m:] for r in a]
+
+
+def _exact_inv(B):
+    """exact inverse of a float/complex ndarray block as a flat list of Fractions or (re, im) pairs (row-major);
+    complex through the real embedding [[Re, -Im], [Im, Re]]; None if singular"""
+    B = np.asarray(B)
+    m = B.shape[0]
+    if m == 0:
+        return []
+    if np.iscomplexobj(B):
+        E = [[frac(B[i, j].real) for j in range(m)] + [-frac(B[i, j].imag) for j in range(m)] for i in range(m)] + \
+            [[frac(B[i, j].imag) for j in range(m)] + [frac(B[i, j].real) for j in range(m)] for i in range(m)]
+        Ei = _frac_inv(E)
+        if Ei is None:
+            return None
+        return [(Ei[i][j], Ei[m + i][j]) for i in range(m) for j in range(m)]
+    Bi = _frac_inv([[frac(B[i, j]) for j in range(m)] for i in range(m)])
+    if Bi is None:
+        return None
+    return [Bi[i][j] for i in range(m) for j in range(m)]
+
+
+def _dyadic_block(rng, bs, cplx):
+    """(D, Dinv) with D invertible and D^-1 dyadic: D = s * P L S U (unit triangular L, U with small integers,
+    S = diag(+-2^k), P a permutation, s a Gaussian-integer scalar whose norm is a power of two); both exact in binary64"""
+    L = np.tril(rng.integers(-2, 3, size=(bs, bs)), -1).astype(float) + np.eye(bs)
+    U = np.triu(rng.integers(-2, 3, size=(bs, bs)), 1).astype(float) + np.eye(bs)
+    S = np.diag(rng.choice([1, 2, 4, 0.5, -1, -2], size=bs).astype(float))
+    P = np.eye(bs)[rng.permutation(bs)]
+    D = P @ L @ S @ U
+    Di = np.linalg.inv(U) @ np.diag(1 / np.diag(S)) @ np.linalg.inv(L) @ P.T
+    Di = np.round(Di * 64) / 64          # unit-triangular integer inverses are integers; S^-1 is dyadic
+    if cplx:
+        s = complex(rng.choice([1, 1j, -1j, 1 + 1j, 2j, -1 + 1j]))
+        D = D * s
+        Di = Di * (s.conjugate() / (s.real ** 2 + s.imag ** 2))
+    assert np.array_equal(D @ Di, np.eye(bs)) and np.array_equal(Di @ D, np.eye(bs)), 'generator: inverse not exact'
+    return D, Di
+
+
+def _csr_arrays_from_dense(rng, M, unsorted=False, duplicates=False):
+    """CSR arrays of the nonzeros of M; optionally unsorted columns and entries split in two halves (duplicates)"""
+    n = M.shape[0]
+    ip, ix, dt = [0], [], []
+    for i in range(n):
+        cols = [int(j) for j in np.nonzero(M[i])[0]]
+        vals = [M[i, j] for j in cols]
+        if duplicates:
+            for k in range(len(cols)):
+                if rng.random() < 0.3:
+                    cols.append(cols[k])
+                    vals.append(vals[k] / 2)
+                    vals[k] = vals[k] / 2
+        if unsorted:
+            p = rng.permutation(len(cols))
+            cols = [cols[k] for k in p]
+            vals = [vals[k] for k in p]
+        ix += cols
+        dt += vals
+        ip.append(len(ix))
+    return ip, ix, np.array(dt, dtype=M.dtype)
+
+
+def _block_system(rng, nb, bs, cplx, missing=False):
+    """dense dyadic block matrix with exactly invertible diagonal blocks; returns (M, Dinv (nb,bs,bs))"""
+    n = nb * bs
+    dt = complex if cplx else float
+    M = ((rng.random((n, n)) < 0.45) * rng.integers(-3, 4, size=(n, n))).astype(dt)
+    if cplx:
+        M = M + 1j * ((rng.random((n, n)) < 0.25) * rng.integers(-2, 3, size=(n, n)))
+    M = M * rng.choice([1.0, 0.5])
+    for bi in range(nb):            # drop some off-diagonal blocks entirely
+        for bj_ in range(nb):
+            if bi != bj_ and rng.random() < 0.35:
+                M[bi * bs:(bi + 1) * bs, bj_ * bs:(bj_ + 1) * bs] = 0
+    Dinv = np.zeros((nb, bs, bs), dtype=dt)
+    for k in range(nb):
+        D, Di = _dyadic_block(rng, bs, cplx)
+        if missing and rng.random() < 0.2:
+            D = np.zeros((bs, bs), dtype=dt)
+            Di = rng.integers(-2, 3, size=(bs, bs)).astype(dt)
+        M[k * bs:(k + 1) * bs, k * bs:(k + 1) * bs] = D
+        Dinv[k] = Di
+    return M, Dinv
+
+
+def _pow2_rows(rng, n, cplx, by_cols=False):
+    """dyadic matrix whose rows (columns) have squared 2-norm a power of two (1/norm^2 exact), some rows empty"""
+    dt = complex if cplx else float
+    M = np.zeros((n, n), dtype=dt)
+    for i in range(n):
+        k = int(rng.choice([k for k in (0, 1, 2, 4) if k <= n]))
+        cols = rng.choice(n, size=k, replace=False)
+        sc = float(rng.choice([1, 2, 0.5]))
+        for j in cols:
+            v = sc * float(rng.choice([-1, 1]))
+            if cplx and rng.random() < 0.4:
+                v = v * 1j
+            M[i, j] = v
+    return M.T.copy() if by_cols else M
+
+
+def ext_case(rng, t):
+    """a JSON-able case description for the extension part"""
+    method = EXT_METHODS[t % len(EXT_METHODS)]
+    cplx = (t // len(EXT_METHODS)) % 4 == 3
+    dt = complex if cplx else float
+    c = {'kind': 'ext', 'method': method, 'complex': cplx}
+    om = float(rng.choice([1.0, 0.5, 1.5, 0.75]))
+    iters = int(rng.integers(1, 4))
+    sweep = str(rng.choice(['forward', 'backward', 'symmetric']))
+    if method in ('block_jacobi', 'block_gauss_seidel', 'k_block_jacobi', 'k_block_gauss_seidel', 'tobsr'):
+        bs = int(rng.choice([1, 2, 2, 3]))
+        nb = int(rng.integers(1, 5 if bs < 3 else 3))
+        mode = str(rng.choice(['exact', 'exact', 'arbitrary', 'default', 'default_general'])) if not method.startswith('k_') else 'exact'
+        if method == 'tobsr':
+            mode = 'exact'
+        M, Dinv = _block_system(rng, nb, bs, cplx, missing=(mode in ('exact', 'arbitrary') and rng.random() < 0.3))
+        if mode == 'arbitrary':
+            Dinv = (rng.integers(-2, 3, size=Dinv.shape) * 0.5).astype(dt)
+        if mode == 'default_general':       # general well-conditioned blocks: LAPACK/SVD inverse within tolerance
+            n = nb * bs
+            M = _well_system(rng, n, cplx)
+        plain = mode.startswith('default')
+        ip, ix, dat = _csr_arrays_from_dense(rng, M, unsorted=(rng.random() < 0.5) and not plain, duplicates=(rng.random() < 0.25) and not plain)
+        fmt = 'bsr' if (rng.random() < 0.35 and not method.startswith('k_') and method != 'tobsr') else 'csr'
+        c.update({'n': nb * bs, 'nb': nb, 'bs': bs, 'mode': mode, 'fmt': fmt, 'indptr': ip, 'indices': ix, 'data': _jl(dat),
+                  'Dinv': _jl(Dinv), 'omega': om, 'iterations': iters, 'sweep': sweep})
+        n = nb * bs
+        if method.startswith('k_'):
+            (s0, s1, s2), swk = gen.admissible_sweep(rng, nb)
+            c['range'] = [int(s0), int(s1), int(s2)]
+            c['temp'] = _jl(gen.rand_vec(rng, n, cplx).astype(dt))
+    elif method == 'polynomial':
+        n = int(rng.integers(1, 7))
+        A, feats = gen.rand_dyadic_csr(rng, n, complex_=cplx, unsorted=(rng.random() < 0.3), duplicates=(rng.random() < 0.25))
+        if cplx:
+            _cdiag(rng, A)
+        c.update({'n': n, 'indptr': A.indptr.tolist(), 'indices': A.indices.tolist(), 'data': _jl(A.data),
+                  'coefficients': [float(v) for v in rng.choice([-0.25, 0.5, 0.125, 1.0, -0.5, 2.0], size=int(rng.integers(1, 5)))],
+                  'iterations': iters, 'zero_x': bool(rng.random() < 0.3)})
+    elif method in ('jacobi_ne', 'gauss_seidel_ne', 'gauss_seidel_nr', 'tocsc'):
+        n = int(rng.integers(1, 7))
+        mode = str(rng.choice(['pow2', 'general', 'explicit'])) if method not in ('jacobi_ne', 'tocsc') else str(rng.choice(['pow2', 'general']))
+        if mode == 'pow2':
+            M = _pow2_rows(rng, n, cplx, by_cols=(method == 'gauss_seidel_nr'))
+            A = gen.int32csr(sp.csr_array(M))
+        else:
+            A, _f = gen.rand_dyadic_csr(rng, n, complex_=cplx)
+            if method == 'tocsc':
+                A, _f = gen.rand_dyadic_csr(rng, n, complex_=cplx, unsorted=(rng.random() < 0.5), duplicates=(rng.random() < 0.3))
+            if cplx:
+                _cdiag(rng, A)
+        c.update({'n': n, 'mode': mode, 'indptr': A.indptr.tolist(), 'indices': A.indices.tolist(), 'data': _jl(A.data),
+                  'omega': om, 'iterations': iters, 'sweep': sweep, 'fmt': 'csc' if (method == 'gauss_seidel_nr' and rng.random() < 0.5) else 'csr'})
+        if mode == 'explicit':
+            # a given Dinv of the right scale (power of two below 1/norm^2, times 1, 1/2, 1/4 or 0): the sweeps stay bounded
+            D_ = A.toarray()
+            nn = np.sum(np.abs(D_) ** 2, axis=0 if method == 'gauss_seidel_nr' else 1)
+            sc = np.array([2.0 ** -int(np.ceil(np.log2(v))) if v > 0 else 1.0 for v in nn])
+            c['Dinv'] = _jl((sc * rng.choice([1, 0.5, 0.25, 0], size=n)).astype(dt))
+    else:   # schwarz, k_schwarz
+        n = int(rng.integers(1, 7))
+        mode = str(rng.choice(['arbitrary', 'inverse', 'default', 'subdomain_only'])) if method == 'schwarz' else str(rng.choice(['arbitrary', 'inverse']))
+        M = _well_system(rng, n, cplx)
+        if mode == 'default':
+            M = M + M.conj().T
+            M[np.arange(n), np.arange(n)] = np.abs(M).sum(1) + 1
+        A = gen.int32csr(sp.csr_array(M))
+        A.sort_indices()
+        c.update({'n': n, 'mode': mode, 'indptr': A.indptr.tolist(), 'indices': A.indices.tolist(), 'data': _jl(A.data),
+                  'iterations': iters, 'sweep': sweep})
+        if mode != 'default':
+            nd = int(rng.integers(1, n + 2))
+            subs = [sorted(int(v) for v in rng.choice(n, size=int(rng.integers(0 if rng.random() < 0.25 else 1, min(n, 3) + 1)), replace=False))
+                    for _ in range(nd)]
+            sp_, sj_, tp_, tx_ = [0], [], [0], []
+            D = M.astype(dt)
+            for idx in subs:
+                sj_ += idx
+                sp_.append(len(sj_))
+                m = len(idx)
+                if mode == 'inverse' and m > 0:
+                    T = np.linalg.inv(D[np.ix_(idx, idx)])
+                else:
+                    T = (rng.integers(-2, 3, size=(m, m)) * 0.5).astype(dt)
+                tx_ += list(np.asarray(T, dtype=dt).ravel())
+                tp_.append(len(tx_))
+            c.update({'subdomain': sj_, 'subdomain_ptr': sp_, 'inv_subblock': _jl(np.array(tx_, dtype=dt)), 'inv_subblock_ptr': tp_})
+            if method == 'k_schwarz':
+                (s0, s1, s2), swk = gen.admissible_sweep(rng, nd)
+                c['range'] = [int(s0), int(s1), int(s2)]
+    n = c['n']
+    c['b'] = _jl(gen.rand_vec(rng, n, cplx).astype(dt))
+    c['x'] = _jl((np.zeros(n) if c.get('zero_x') else gen.rand_vec(rng, n, cplx)).astype(dt))
+    return c
+
+
+def _ext_matrix(c):
+    cplx = c['complex']
+    return gen.csr_from_arrays(c['n'], c['indptr'], c['indices'], _ja(c['data'], cplx))
+
+
+def ext_call(c):
+    """run the real code on a case; returns (output ndarray | ('raised', text), extra) where extra carries what the
+    model line needs beyond the case (SciPy-converted arrays, exact inverses)"""
+    from pyamg.relaxation import relaxation as R
+    from pyamg import amg_core
+    cplx = c['complex']
+    dt = complex if cplx else float
+    method = c['method']
+    A = _ext_matrix(c)
+    x = _ja(c['x'], cplx).astype(dt)
+    b = _ja(c['b'], cplx).astype(dt)
+    extra = {}
+    hA, hb = _h(A.data), _h(b)
+    if method in ('block_jacobi', 'block_gauss_seidel'):
+        bs, nb = c['bs'], c['nb']
+        Dinv = _ja(c['Dinv'], cplx).reshape(nb, bs, bs).astype(dt)
+        Ain = A
+        if c['fmt'] == 'bsr':
+            Ain = A.tobsr(blocksize=(bs, bs))
+            Ain.indptr, Ain.indices = Ain.indptr.astype(np.int32), Ain.indices.astype(np.int32)
+            extra['bsr'] = (Ain.indptr.tolist(), Ain.indices.tolist(), Ain.data.ravel().copy())
+            hA = _h(Ain.data)
+        kw = {} if c['mode'].startswith('default') else {'Dinv': Dinv.copy()}
+        if method == 'block_jacobi':
+            R.block_jacobi(Ain, x, b, blocksize=bs, iterations=c['iterations'], omega=c['omega'], **kw)
+        else:
+            R.block_gauss_seidel(Ain, x, b, iterations=c['iterations'], sweep=c['sweep'], blocksize=bs, **kw)
+        extra['modified'] = (_h(Ain.data) != hA) or _h(b) != hb
+        return x, extra
+    if method in ('k_block_jacobi', 'k_block_gauss_seidel'):
+        bs, nb = c['bs'], c['nb']
+        B = A.tobsr(blocksize=(bs, bs))
+        bp, bj, bx = B.indptr.astype(np.int32), B.indices.astype(np.int32), np.ravel(B.data).astype(dt)
+        extra['bsr'] = (bp.tolist(), bj.tolist(), bx.copy())
+        Dinv = _ja(c['Dinv'], cplx).astype(dt)
+        s0, s1, s2 = c['range']
+        if method == 'k_block_jacobi':
+            temp = _ja(c['temp'], cplx).astype(dt)
+            amg_core.block_jacobi(bp, bj, bx, x, b, Dinv, temp, s0, s1, s2, np.array([c['omega']], dtype=dt), bs)
+        else:
+            amg_core.block_gauss_seidel(bp, bj, bx, x, b, Dinv, s0, s1, s2, bs)
+        return x, extra
+    if method == 'tobsr':
+        bs = c['bs']
+        B = A.tobsr(blocksize=(bs, bs))
+        return np.concatenate([np.ravel(B.data)]), {'bsr': (B.indptr.tolist(), B.indices.tolist(), np.ravel(B.data))}
+    if method == 'tocsc':
+        B = A.tocsc()
+        return np.asarray(B.data), {'csc': (B.indptr.tolist(), B.indices.tolist(), np.asarray(B.data))}
+    if method == 'polynomial':
+        R.polynomial(A, x, b, c['coefficients'], iterations=c['iterations'])
+    elif method == 'jacobi_ne':
+        R.jacobi_ne(A, x, b, iterations=c['iterations'], omega=c['omega'])
+    elif method == 'gauss_seidel_ne':
+        kw = {'Dinv': _ja(c['Dinv'], cplx).astype(dt)} if c['mode'] == 'explicit' else {}
+        R.gauss_seidel_ne(A, x, b, iterations=c['iterations'], sweep=c['sweep'], omega=c['omega'], **kw)
+    elif method == 'gauss_seidel_nr':
+        kw = {'Dinv': _ja(c['Dinv'], cplx).astype(dt)} if c['mode'] == 'explicit' else {}
+        Ain = A
+        if c['fmt'] == 'csc':
+            Ain = A.tocsc()
+            Ain.indptr, Ain.indices = Ain.indptr.astype(np.int32), Ain.indices.astype(np.int32)
+            extra['csc'] = (Ain.indptr.tolist(), Ain.indices.tolist(), Ain.data.copy())
+        R.gauss_seidel_nr(Ain, x, b, iterations=c['iterations'], sweep=c['sweep'], omega=c['omega'], **kw)
+    elif method == 'schwarz':
+        if c['mode'] == 'default':
+            R.schwarz(A, x, b, iterations=c['iterations'], sweep=c['sweep'])
+        elif c['mode'] == 'subdomain_only':
+            R.schwarz(A, x, b, iterations=c['iterations'], sweep=c['sweep'],
+                      subdomain=np.array(c['subdomain'], dtype=np.int32), subdomain_ptr=np.array(c['subdomain_ptr'], dtype=np.int32))
+        else:
+            R.schwarz(A, x, b, iterations=c['iterations'], sweep=c['sweep'],
+                      subdomain=np.array(c['subdomain'], dtype=np.int32), subdomain_ptr=np.array(c['subdomain_ptr'], dtype=np.int32),
+                      inv_subblock=_ja(c['inv_subblock'], cplx).astype(dt), inv_subblock_ptr=np.array(c['inv_subblock_ptr'], dtype=np.int32))
+    elif method == 'k_schwarz':
+        s0, s1, s2 = c['range']
+        sp_ = np.array(c['subdomain_ptr'], dtype=np.int32)
+        amg_core.overlapping_schwarz_csr(A.indptr, A.indices, A.data, x, b, _ja(c['inv_subblock'], cplx).astype(dt),
+                                         np.array(c['inv_subblock_ptr'], dtype=np.int32), np.array(c['subdomain'], dtype=np.int32), sp_,
+                                         len(sp_) - 1, c['n'], s0, s1, s2)
+    else:
+        raise KeyError(method)
+    # the drivers may sort the caller's matrix in place; the matrix itself must be the same
+    extra['modified'] = (not np.array_equal(A.toarray(), _ext_matrix(c).toarray())) or _h(b) != hb
+    return x, extra
+
+
+def _default_block_inverses(c):
+    """exact inverses of the diagonal blocks (what `Dinv=None` stands for), flat list, or None if some block is singular"""
+    cplx = c['complex']
+    D = _ext_matrix(c).toarray()
+    bs = c['bs']
+    out = []
+    for k in range(c['nb']):
+        inv = _exact_inv(D[k * bs:(k + 1) * bs, k * bs:(k + 1) * bs])
+        if inv is None:
+            return None
+        out += inv
+    return out
+
+
+def ext_line(c, extra):
+    """the Lean request of a case (None = no model request for this case)"""
+    cplx = c['complex']
+    P = 'ext_c09_c_' if cplx else 'ext_c09_r_'
+    ev = lambda a: _encqs(list(np.asarray(a).ravel()) if not isinstance(a, list) else a, cplx)
+    vec = lambda key: ev(_ja(c[key], cplx))
+    method = c['method']
+    csr = f'{c["n"]} {enc_ints(c["indptr"])} {enc_ints(c["indices"])} {vec("data")}'
+    if method in ('block_jacobi', 'block_gauss_seidel'):
+        if 'bsr' in extra:
+            bp, bj, bx = extra['bsr']
+            mat = f'bsr {c["nb"]} {c["bs"]} {enc_ints(bp)} {enc_ints(bj)} {ev(bx)}'
+        else:
+            mat = f'csr {c["n"]} {c["bs"]} {enc_ints(c["indptr"])} {enc_ints(c["indices"])} {vec("data")}'
+        if c['mode'].startswith('default'):
+            inv = _default_block_inverses(c)
+            if inv is None:
+                return None
+            dinv = _encqs(inv, cplx)
+        else:
+            dinv = vec('Dinv')
+        if method == 'block_jacobi':
+            return f'{P}bjac {_encq(frac(c["omega"]))} {mat} {vec("b")} {vec("x")} {dinv} {c["iterations"]}'
+        return f'{P}bgs {mat} {vec("b")} {vec("x")} {dinv} {c["iterations"]} {c["sweep"]}'
+    if method in ('k_block_jacobi', 'k_block_gauss_seidel'):
+        bp, bj, bx = extra['bsr']
+        mat = f'{c["nb"]} {c["bs"]} {enc_ints(bp)} {enc_ints(bj)} {ev(bx)}'
+        s0, s1, s2 = c['range']
+        if method == 'k_block_jacobi':
+            return f'{P}bjack {_encq(frac(c["omega"]))} {mat} {vec("b")} {vec("x")} {vec("Dinv")} {vec("temp")} {s0} {s1} {s2}'
+        return f'{P}bgsk {mat} {vec("b")} {vec("x")} {vec("Dinv")} {s0} {s1} {s2}'
+    if method == 'tobsr':
+        return f'{P}tobsr {c["n"]} {c["bs"]} {enc_ints(c["indptr"])} {enc_ints(c["indices"])} {vec("data")}'
+    if method == 'tocsc':
+        return f'{P}tocsc {csr}'
+    if method == 'polynomial':
+        return f'{P}poly {csr} {vec("b")} {vec("x")} {_encqs(c["coefficients"], cplx)} {c["iterations"]}'
+    if method == 'jacobi_ne':
+        return f'{P}jacne {_encq(frac(c["omega"]))} {csr} {vec("b")} {vec("x")} {c["iterations"]}'
+    if method == 'gauss_seidel_ne':
+        dinv = vec('Dinv') if c['mode'] == 'explicit' else 'none'
+        return f'{P}gsne {_encq(frac(c["omega"]))} {csr} {vec("b")} {vec("x")} {dinv} {c["iterations"]} {c["sweep"]}'
+    if method == 'gauss_seidel_nr':
+        dinv = vec('Dinv') if c['mode'] == 'explicit' else 'none'
+        if 'csc' in extra:
+            cp, ci, cx = extra['csc']
+            mat = f'csc {c["n"]} {enc_ints(cp)} {enc_ints(ci)} {ev(cx)}'
+        else:
+            mat = f'csr {csr}'
+        return f'{P}gsnr {_encq(frac(c["omega"]))} {mat} {vec("b")} {vec("x")} {dinv} {c["iterations"]} {c["sweep"]}'
+    # schwarz
+    if c['mode'] == 'default':
+        A = _ext_matrix(c)
+        D = A.toarray()
+        sj_, sp_, tx_, tp_ = [], [0], [], [0]
+        for i in range(c['n']):
+            idx = sorted(int(v) for v in A.indices[A.indptr[i]:A.indptr[i + 1]])
+            inv = _exact_inv(D[np.ix_(idx, idx)])
+            if inv is None:
+                return None
+            sj_ += idx
+            sp_.append(len(sj_))
+            tx_ += inv
+            tp_.append(len(tx_))
+        tx = _encqs(tx_, cplx)
+    elif c['mode'] == 'subdomain_only':
+        D = _ext_matrix(c).toarray()
+        sj_, sp_, tx_, tp_ = c['subdomain'], c['subdomain_ptr'], [], [0]
+        for d in range(len(sp_) - 1):
+            idx = sj_[sp_[d]:sp_[d + 1]]
+            inv = _exact_inv(D[np.ix_(idx, idx)])
+            if inv is None:
+                return None
+            tx_ += inv
+            tp_.append(len(tx_))
+        tx = _encqs(tx_, cplx)
+    else:
+        sj_, sp_, tp_ = c['subdomain'], c['subdomain_ptr'], c['inv_subblock_ptr']
+        tx = vec('inv_subblock')
+    head = f'{csr} {vec("b")} {vec("x")} {tx} {enc_ints(tp_)} {enc_ints(sj_)} {enc_ints(sp_)}'
+    if method == 'k_schwarz':
+        s0, s1, s2 = c['range']
+        return f'{P}schwarzk {head} {s0} {s1} {s2}'
+    return f'{P}schwarz {head} {c["iterations"]} {c["sweep"]}'
+
+
+def ext_reference(c):
+    """independent dense NumPy evaluation of the defining update of a case (None = not applicable)"""
+    cplx = c['complex']
+    dt = complex if cplx else float
+    method = c['method']
+    if method in ('tobsr', 'tocsc'):
+        return None
+    n = c['n']
+    D = _ext_matrix(c).toarray().astype(dt)
+    x = _ja(c['x'], cplx).astype(dt)
+    b = _ja(c['b'], cplx).astype(dt)
+    om = c.get('omega', 1.0)
+    iters = c.get('iterations', 1)
+    sw = c.get('sweep', 'forward')
+
+    def passes(fwd, bwd):
+        o = []
+        for _ in range(iters):
+            if sw in ('forward', 'symmetric'):
+                o.append(fwd)
+            if sw in ('backward', 'symmetric'):
+                o.append(bwd)
+        return o
+    if method in ('block_jacobi', 'block_gauss_seidel', 'k_block_jacobi', 'k_block_gauss_seidel', 'cf_block_jacobi', 'fc_block_jacobi'):
+        bs, nb = c['bs'], c['nb']
+        if c['mode'].startswith('default'):
+            Dinv = np.array([np.linalg.inv(D[k * bs:(k + 1) * bs, k * bs:(k + 1) * bs]) for k in range(nb)])
+        else:
+            Dinv = _ja(c['Dinv'], cplx).reshape(nb, bs, bs)
+        off = D.copy()
+        for k in range(nb):
+            off[k * bs:(k + 1) * bs, k * bs:(k + 1) * bs] = 0
+
+        def jac(x, rows, old):
+            new = x.copy()
+            for k in rows:
+                sl = slice(k * bs, (k + 1) * bs)
+                new[sl] = (1 - om) * old[sl] + om * (Dinv[k] @ (b[sl] - off[sl] @ old))
+            return new
+
+        def gs(x, rows):
+            x = x.copy()
+            for k in rows:
+                sl = slice(k * bs, (k + 1) * bs)
+                x[sl] = Dinv[k] @ (b[sl] - off[sl] @ x)
+            return x
+        if method == 'block_jacobi':
+            for _ in range(iters):
+                x = jac(x, range(nb), x)
+        elif method in ('cf_block_jacobi', 'fc_block_jacobi'):
+            order = [(c['Cpts'], c['c_iterations']), (c['Fpts'], c['f_iterations'])]
+            if method == 'fc_block_jacobi':
+                order.reverse()
+            for _ in range(iters):
+                for pts, reps in order:
+                    for _r in range(reps):
+                        x = jac(x, pts, x)
+        elif method == 'block_gauss_seidel':
+            for rows in passes(list(range(nb)), list(range(nb - 1, -1, -1))):
+                x = gs(x, rows)
+        elif method == 'k_block_jacobi':
+            rows = list(range(*c['range']))
+            old = _ja(c['temp'], cplx).astype(dt)
+            for k in rows:
+                old[k * bs:(k + 1) * bs] = x[k * bs:(k + 1) * bs]
+            x = jac(x, rows, old)
+        else:
+            x = gs(x, list(range(*c['range'])))
+        return x
+    if method == 'polynomial':
+        for _ in range(iters):
+            r = b - D @ x
+            h = np.zeros(n, dtype=dt)
+            for cf in c['coefficients']:
+                h = D @ h + cf * r
+            x = x + h
+        return x
+    if method in ('jacobi_ne', 'gauss_seidel_ne', 'gauss_seidel_nr'):
+        if c.get('mode') == 'explicit':
+            di = _ja(c['Dinv'], cplx).astype(dt)
+        else:
+            dd = np.sum(np.abs(D) ** 2, axis=0 if method == 'gauss_seidel_nr' else 1)
+            di = np.where(dd != 0, 1 / np.where(dd != 0, dd, 1), 0).astype(dt)
+        fwd, bwd = list(range(n)), list(range(n - 1, -1, -1))
+        if method == 'jacobi_ne':
+            for _ in range(iters):
+                x = x + om * (D.conj().T @ ((b - D @ x) * di))
+            return x
+        for rows in passes(fwd, bwd):
+            for i in rows:
+                if method == 'gauss_seidel_ne':
+                    x = x + om * ((b[i] - D[i] @ x) * di[i]) * D[i].conj()
+                else:
+                    x = x.copy()
+                    x[i] += om * (D[:, i].conj() @ (b - D @ x)) * di[i]
+        return x
+    # schwarz
+    if c['mode'] == 'default':
+        A = _ext_matrix(c)
+        subs = [np.sort(A.indices[A.indptr[i]:A.indptr[i + 1]]) for i in range(n)]
+        Ts = [np.linalg.inv(D[np.ix_(s, s)]) for s in subs]
+    else:
+        sp_, sj_, tp_ = c['subdomain_ptr'], c['subdomain'], c['inv_subblock_ptr']
+        tx = _ja(c['inv_subblock'], cplx)
+        subs = [np.array(sj_[sp_[d]:sp_[d + 1]], dtype=int) for d in range(len(sp_) - 1)]
+        if c['mode'] == 'subdomain_only':
+            Ts = [np.linalg.inv(D[np.ix_(s_, s_)]) if len(s_) else np.zeros((0, 0)) for s_ in subs]
+        else:
+            Ts = [tx[tp_[d]:tp_[d + 1]].reshape(len(subs[d]), len(subs[d])) for d in range(len(subs))]
+    nd = len(subs)
+    if method == 'k_schwarz':
+        orders = [list(range(*c['range']))]
+    else:
+        orders = passes(list(range(nd)), list(range(nd - 1, -1, -1)))
+    for order in orders:
+        for d in order:
+            idx = subs[d]
+            if len(idx) == 0:
+                continue
+            r = b - D @ x
+            x = x.copy()
+            x[idx] += Ts[d] @ r[idx]
+    return x
+
+
+def judge_ext(ctx, c, out):
+    ref = ext_reference(c)
+    if ref is None:
+        return
+    if isinstance(out, tuple) or not np.allclose(ref, out, rtol=0, atol=1e-8 * (1 + float(np.max(np.abs(ref), initial=0)))):
+        ctx.violation(f'{c["method"]} ({ {k: c[k] for k in ("mode", "fmt", "sweep", "iterations", "omega", "bs") if k in c} }) is not its '
+                      f'defining update: expected {np.asarray(ref).tolist()} got {out if isinstance(out, tuple) else np.asarray(out).tolist()}', c)
+
+
+def _ext_compare(c, extra, o, out):
+    """(exact, close) of the model reply `o` against the implementation"""
+    cplx = c['complex']
+    if o in ('bad-op', 'reject', ''):
+        return False, False
+    if c['method'] == 'tobsr':
+        parts = o.split(';')
+        bp, bj, bx = extra['bsr']
+        if len(parts) != 4 or dec_list(parts[1], int) != list(bp) or dec_list(parts[2], int) != list(bj):
+            return False, False
+        return _eq_exact(dec_list(parts[3], dec_crat if cplx else dec_rat), bx)
+    if c['method'] == 'tocsc':
+        parts = o.split(';')
+        cp, ci, cx = extra['csc']
+        if len(parts) != 3 or dec_list(parts[0], int) != list(cp) or dec_list(parts[1], int) != list(ci):
+            return False, False
+        return _eq_exact(dec_list(parts[2], dec_crat if cplx else dec_rat), cx)
+    return _eq_normwise(_parse_model(o, cplx), out)
+
+
+def _eq_normwise(model_vals, impl):
+    """(exact?, close?) with `close` measured against the largest entry of the vector (a sweep mixes the entries, so the
+    rounding error of one entry is relative to the size of the whole vector)"""
+    impl = np.asarray(impl).ravel()
+    if len(model_vals) != impl.size:
+        return False, False
+    if impl.size == 0:
+        return True, True
+    if not np.all(np.isfinite(impl)):
+        return False, False
+    mv = np.array([complex(float(m[0]), float(m[1])) if isinstance(m, tuple) else float(m) for m in model_vals])
+    exact = all((frac(v.real) == m[0] and frac(v.imag) == m[1]) if isinstance(m, tuple) else frac(v) == m
+                for m, v in zip(model_vals, impl))
+    scale = 1 + float(np.max(np.abs(mv)))
+    return exact, bool(np.max(np.abs(mv - impl)) <= 1e-9 * scale)
+
+
+def part_d(ctx, N):
+    rng = ctx.np_rng
+    items = []
+    for t in range(N):
+        c = ext_case(rng, t)
+        try:
+            out, extra = ext_call(c)
+        except Exception as e:      # a public relaxation call must not raise on a valid system
+            ctx.case(key=hashlib.sha1(repr(c).encode()).hexdigest(), nontrivial=c['n'] >= 2)
+            ctx.violation(f'{c["method"]} raised {type(e).__name__}: {e}', c)
+            continue
+        if extra.get('modified'):
+            ctx.violation(f'{c["method"]} modified its matrix or right-hand side', c)
+        line = ext_line(c, extra)
+        if line is None:
+            continue
+        items.append((c, extra, out, line))
+    outs = ctx.lean([it[3] for it in items])
+    for (c, extra, out, line), o in zip(items, outs):
+        nontriv = c['n'] >= 2 and len(c['indices']) > c['n'] // max(1, c.get('bs', 1))
+        ctx.case(key=hashlib.sha1(line.encode()).hexdigest(), nontrivial=nontriv,
+                 sample={'request': line[:300], 'model': o[:120], 'impl': np.asarray(out).tolist()[:8] if not np.iscomplexobj(out) else str(out[:4])})
+        ctx.feat('ext:' + c['method'])
+        for k in ('mode', 'fmt', 'sweep', 'bs'):
+            if k in c:
+                ctx.feat(f'ext:{c["method"]}:{k}={c[k]}')
+        ctx.feat('ext:complex' if c['complex'] else 'ext:real')
+        if c['method'] not in ('tobsr', 'tocsc') and np.asarray(out).size and not np.max(np.abs(out)) < 1e12:
+            ctx.near_skipped += 1       # a diverging iteration (arbitrary inverse blocks): rounding decides, nothing to compare
+            ctx.feat('ext:skipped_diverged')
+            continue
+        exact, close = _ext_compare(c, extra, o, out)
+        if exact:
+            ctx.feat('ext:bit_exact')
+            ctx.feat('ext:bit_exact:' + c['method'])
+        if not close:
+            ctx.corr('ext ' + c['method'], c, o, np.asarray(out).tolist() if not np.iscomplexobj(out) else _jl(out))
+            judge_ext(ctx, c, out)
+
+
+# ------------------------------------------------------------------------------------------------
+# part E: call histories on ONE matrix object.  Several relaxation routines leave data on the matrix they are given
+# (schwarz: A.schwarz_parameters; get_block_diag: A.block_D_inv on a BSR matrix of the requested block size; sorted
+# indices) or accept precomputed data (Dinv, inv_subblock, coefficients).  Every call of a history is judged against the
+# defining update for the arguments of THAT call (Lean model of part D + dense NumPy formula).
+# ------------------------------------------------------------------------------------------------
+
+HIST_FOCUS = {
+    'schwarz': ['schwarz'],
+    'block': ['block_jacobi', 'block_gauss_seidel', 'cf_block_jacobi', 'fc_block_jacobi'],
+    'ne': ['jacobi_ne', 'gauss_seidel_ne', 'gauss_seidel_nr', 'polynomial'],
+    'mixed': ['schwarz', 'block_jacobi', 'block_gauss_seidel', 'cf_block_jacobi', 'fc_block_jacobi', 'jacobi_ne', 'gauss_seidel_ne',
+              'gauss_seidel_nr', 'polynomial'],
+}
+
+
+def _rand_decomposition(rng, n, sizes):
+    """sorted, duplicate-free index sets of the given sizes -> (subdomain, subdomain_ptr)"""
+    sj_, sp_ = [], [0]
+    for m in sizes:
+        sj_ += sorted(int(v) for v in rng.choice(n, size=int(m), replace=False))
+        sp_.append(len(sj_))
+    return sj_, sp_
+
+
+def hist_case(rng, t):
+    """one matrix + 2-4 calls (ext-style case dicts sharing the matrix).  Successive calls differ in the user data they
+    pass (same shapes, other contents), in block size, sweep, damping and in whether precomputed data is passed at all."""
+    focus = ['schwarz', 'block', 'ne', 'mixed'][t % 4]
+    cplx = (t // 4) % 3 == 2
+    dt = complex if cplx else float
+    n = int(rng.choice([2, 3, 4, 4, 6, 6]))
+    M = _well_system(rng, n, cplx)
+    schwarz_default = bool(rng.random() < 0.2)
+    if schwarz_default:     # pattern-defined subdomains: symmetric pattern as in part C
+        M = M + M.conj().T
+        M[np.arange(n), np.arange(n)] = np.abs(M).sum(1) + 1
+    A = gen.int32csr(sp.csr_array(M))
+    A.sort_indices()
+    divs = [d for d in (1, 2, 3) if n % d == 0]
+    r = rng.random()
+    obj = 'csr' if r < 0.45 else (f'bsr{int(rng.choice(divs))}' if r < 0.85 else 'csc')
+    if schwarz_default and obj.startswith('bsr'):
+        obj = 'csr'     # the default subdomains are the STORED row patterns; BSR -> CSR conversion stores the zeros of a block
+    base = {'kind': 'ext', 'complex': cplx, 'n': n, 'indptr': A.indptr.tolist(), 'indices': A.indices.tolist(), 'data': _jl(A.data), 'fmt': 'csr'}
+    D = M.astype(dt)
+    # the Schwarz decompositions of one history have the same number of subdomains and the same total length
+    nd = int(rng.integers(1, n + 1))
+    sizes = [int(rng.integers(1, min(n, 3) + 1)) for _ in range(nd)]
+    ncoef = int(rng.integers(1, 4))
+    calls, last_schwarz = [], None
+    for k in range(int(rng.integers(2, 5))):
+        method = str(rng.choice(HIST_FOCUS[focus]))
+        c = dict(base, method=method, omega=float(rng.choice([1.0, 0.5, 1.5, 0.75])), iterations=int(rng.integers(1, 3)),
+                 sweep=str(rng.choice(['forward', 'backward', 'symmetric'])))
+        if method in HIST_FOCUS['block']:
+            bs = int(rng.choice(divs))
+            nb = n // bs
+            mode = str(rng.choice(['default_general', 'arbitrary', 'given_inverse']))
+            if mode == 'arbitrary':
+                Dinv = (rng.integers(-2, 3, size=(nb, bs, bs)) * 0.125).astype(dt)
+                if cplx:
+                    Dinv = Dinv * rng.choice([1, 1j, 0.5 + 0.5j], size=(nb, 1, 1))
+            else:
+                Dinv = np.array([np.linalg.inv(D[i * bs:(i + 1) * bs, i * bs:(i + 1) * bs]) for i in range(nb)])
+            c.update({'bs': bs, 'nb': nb, 'mode': mode, 'Dinv': _jl(Dinv)})
+            if method in ('cf_block_jacobi', 'fc_block_jacobi'):
+                perm = rng.permutation(nb)
+                k0 = int(rng.integers(0, nb + 1))
+                c.update({'Cpts': sorted(int(v) for v in perm[:k0]), 'Fpts': sorted(int(v) for v in perm[k0:]),
+                          'f_iterations': int(rng.integers(1, 3)), 'c_iterations': int(rng.integers(1, 3))})
+        elif method == 'polynomial':
+            c['coefficients'] = [float(v) for v in rng.choice([-0.25, 0.5, 0.125, 1.0, -0.5], size=ncoef) / 16]
+        elif method in ('jacobi_ne', 'gauss_seidel_ne', 'gauss_seidel_nr'):
+            c['mode'] = 'general' if method == 'jacobi_ne' else str(rng.choice(['general', 'explicit']))
+            if c['mode'] == 'explicit':
+                nn = np.sum(np.abs(D) ** 2, axis=0 if method == 'gauss_seidel_nr' else 1)
+                sc = np.array([2.0 ** -int(np.ceil(np.log2(v))) for v in nn])
+                c['Dinv'] = _jl((sc * rng.choice([1, 0.5, 0.25, 0], size=n)).astype(dt))
+        else:   # schwarz
+            if schwarz_default:
+                c['mode'] = 'default'
+            elif last_schwarz is not None and rng.random() < 0.2:
+                # the very same decomposition and the very same precomputed data again (legitimate reuse)
+                c.update({key: last_schwarz[key] for key in ('mode', 'subdomain', 'subdomain_ptr', 'inv_subblock', 'inv_subblock_ptr')})
+            else:
+                c['mode'] = str(rng.choice(['subdomain_only', 'subdomain_only', 'arbitrary', 'inverse']))
+                r2 = rng.random()
+                if last_schwarz is not None and r2 < 0.3:
+                    # same index array, other pointer array of the same length
+                    sj_, sp_ = list(last_schwarz['subdomain']), _rand_decomposition(rng, n, list(rng.permutation(sizes)))[1]
+                    ok = all(len(set(sj_[sp_[d]:sp_[d + 1]])) == sp_[d + 1] - sp_[d] for d in range(nd))
+                    sj_ = [v for d in range(nd) for v in sorted(sj_[sp_[d]:sp_[d + 1]])]
+                    if not ok:
+                        sj_, sp_ = _rand_decomposition(rng, n, sizes)
+                elif last_schwarz is not None and r2 < 0.55:
+                    # same pointer array, other indices
+                    sp_ = list(last_schwarz['subdomain_ptr'])
+                    sj_, sp_ = _rand_decomposition(rng, n, np.diff(sp_))
+                else:
+                    sj_, sp_ = _rand_decomposition(rng, n, list(rng.permutation(sizes)))
+                tx_, tp_ = [], [0]
+                for d in range(nd):
+                    idx = sj_[sp_[d]:sp_[d + 1]]
+                    m = len(idx)
+                    T = np.linalg.inv(D[np.ix_(idx, idx)]) if c['mode'] != 'arbitrary' else (rng.integers(-2, 3, size=(m, m)) * 0.125).astype(dt)
+                    tx_ += list(np.asarray(T, dtype=dt).ravel())
+                    tp_.append(len(tx_))
+                c.update({'subdomain': sj_, 'subdomain_ptr': sp_, 'inv_subblock': _jl(np.array(tx_, dtype=dt)), 'inv_subblock_ptr': tp_})
+                if last_schwarz is not None and (sj_, sp_) == (last_schwarz['subdomain'], last_schwarz['subdomain_ptr']):
+                    # an unchanged decomposition legitimately reuses the data of the previous call: pass the same data
+                    c.update({key: last_schwarz[key] for key in ('mode', 'inv_subblock', 'inv_subblock_ptr')})
+            last_schwarz = c
+        c['b'] = _jl(gen.rand_vec(rng, n, cplx).astype(dt))
+        c['x'] = _jl(gen.rand_vec(rng, n, cplx).astype(dt))
+        calls.append(c)
+    return {'kind': 'history', 'object': obj, 'focus': focus, 'calls': calls}
+
+
+def hist_object(h):
+    """the ONE matrix object all calls of the history are made on"""
+    A = _ext_matrix(h['calls'][0])
+    obj = h['object']
+    if obj.startswith('bsr'):
+        bs = int(obj[3:])
+        A = A.tobsr(blocksize=(bs, bs))
+        A.indptr, A.indices = A.indptr.astype(np.int32), A.indices.astype(np.int32)
+    elif obj == 'csc':
+        A = A.tocsc()
+        A.indptr, A.indices = A.indptr.astype(np.int32), A.indices.astype(np.int32)
+    return A
+
+
+def hist_call(c, Aobj):
+    """one public call with the arguments of case c on the given matrix object; returns x after the call"""
+    from pyamg.relaxation import relaxation as R
+    cplx = c['complex']
+    dt = complex if cplx else float
+    method = c['method']
+    x = _ja(c['x'], cplx).astype(dt)
+    b = _ja(c['b'], cplx).astype(dt)
+    i32 = lambda key: np.array(c[key], dtype=np.int32)
+    if method in HIST_FOCUS['block']:
+        bs, nb = c['bs'], c['nb']
+        kw = {} if c['mode'].startswith('default') else {'Dinv': _ja(c['Dinv'], cplx).reshape(nb, bs, bs).astype(dt).copy()}
+        if method == 'block_jacobi':
+            R.block_jacobi(Aobj, x, b, blocksize=bs, iterations=c['iterations'], omega=c['omega'], **kw)
+        elif method == 'block_gauss_seidel':
+            R.block_gauss_seidel(Aobj, x, b, iterations=c['iterations'], sweep=c['sweep'], blocksize=bs, **kw)
+        else:
+            fn = R.cf_block_jacobi if method == 'cf_block_jacobi' else R.fc_block_jacobi
+            fn(Aobj, x, b, i32('Cpts'), i32('Fpts'), blocksize=bs, iterations=c['iterations'], f_iterations=c['f_iterations'],
+               c_iterations=c['c_iterations'], omega=c['omega'], **kw)
+    elif method == 'polynomial':
+        R.polynomial(Aobj, x, b, c['coefficients'], iterations=c['iterations'])
+    elif method == 'jacobi_ne':
+        R.jacobi_ne(Aobj, x, b, iterations=c['iterations'], omega=c['omega'])
+    elif method in ('gauss_seidel_ne', 'gauss_seidel_nr'):
+        kw = {'Dinv': _ja(c['Dinv'], cplx).astype(dt)} if c['mode'] == 'explicit' else {}
+        (R.gauss_seidel_ne if method == 'gauss_seidel_ne' else R.gauss_seidel_nr)(
+            Aobj, x, b, iterations=c['iterations'], sweep=c['sweep'], omega=c['omega'], **kw)
+    elif method == 'schwarz':
+        kw = {}
+        if c['mode'] != 'default':
+            kw = {'subdomain': i32('subdomain'), 'subdomain_ptr': i32('subdomain_ptr')}
+            if c['mode'] != 'subdomain_only':
+                kw.update({'inv_subblock': _ja(c['inv_subblock'], cplx).astype(dt), 'inv_subblock_ptr': i32('inv_subblock_ptr')})
+        R.schwarz(Aobj, x, b, iterations=c['iterations'], sweep=c['sweep'], **kw)
+    else:
+        raise KeyError(method)
+    return x, _h(b) != _h(_ja(c['b'], cplx).astype(dt))
+
+
+def _hist_brief(c):
+    return {k: c[k] for k in ('method', 'mode', 'bs', 'sweep', 'iterations', 'omega', 'subdomain', 'subdomain_ptr', 'coefficients') if k in c}
+
+
+def judge_hist(ctx, h, k, out):
+    c = h['calls'][k]
+    ref = ext_reference(c)
+    if ref is None:
+        return
+    if isinstance(out, tuple) or not np.allclose(ref, out, rtol=0, atol=1e-8 * (1 + float(np.max(np.abs(ref), initial=0)))):
+        ctx.violation(f'call {k + 1} of a history on one {h["object"]} matrix object, {_hist_brief(c)} after {[_hist_brief(p) for p in h["calls"][:k]]}, '
+                      f'is not the defining update for its own arguments: expected {np.asarray(ref).tolist()} got '
+                      f'{out if isinstance(out, tuple) else np.asarray(out).tolist()}',
+                      {'kind': 'history', 'object': h['object'], 'calls': h['calls'][:k + 1]})
+
+
+def part_e(ctx, N):
+    rng = ctx.np_rng
+    items = []
+    for t in range(N):
+        h = hist_case(rng, t)
+        Aobj = hist_object(h)
+        M0 = Aobj.toarray()
+        for k, c in enumerate(h['calls']):
+            sub = {'kind': 'history', 'object': h['object'], 'calls': h['calls'][:k + 1]}
+            try:
+                out, bmod = hist_call(c, Aobj)
+            except Exception as e:      # a public relaxation call must not raise on a valid system, whatever was called before
+                ctx.case(key=hashlib.sha1(repr(sub).encode()).hexdigest(), nontrivial=c['n'] >= 2)
+                ctx.violation(f'call {k + 1} of a history on one {h["object"]} matrix object, {_hist_brief(c)} after '
+                              f'{[_hist_brief(p_) for p_ in h["calls"][:k]]}, raised {type(e).__name__}: {e}', sub)
+                break
+            if bmod or not np.array_equal(Aobj.toarray(), M0):
+                ctx.violation(f'{c["method"]} (call {k + 1} of a history) modified its matrix or right-hand side', sub)
+            items.append((h, k, c, out, ext_line(c, {}) if c['method'] in EXT_METHODS else None))
+    outs = iter(ctx.lean([it[4] for it in items if it[4] is not None]))
+    for h, k, c, out, line in items:
+        o = next(outs) if line is not None else None
+        ctx.case(key=hashlib.sha1((f'{h["object"]} {k} ' + (line or repr(c))).encode()).hexdigest(),
+                 nontrivial=c['n'] >= 2 and len(c['indices']) > c['n'],
+                 sample={'object': h['object'], 'call': k + 1, 'request': (line or c['method'])[:300], 'model': (o or '')[:120]} if k == 1 else None)
+        ctx.feat('hist:' + c['method'])
+        ctx.feat('hist:object=' + h['object'])
+        ctx.feat(f'hist:call{k + 1}')
+        ctx.feat('hist:complex' if c['complex'] else 'hist:real')
+        if 'mode' in c:
+            ctx.feat(f'hist:{c["method"]}:mode={c["mode"]}')
+        if k and c['method'] == h['calls'][k - 1]['method']:
+            ctx.feat('hist:same_routine_again')
+            if c.get('bs') != h['calls'][k - 1].get('bs'):
+                ctx.feat('hist:other_blocksize')
+            if 'subdomain' in c and 'subdomain' in h['calls'][k - 1]:
+                p_ = h['calls'][k - 1]
+                ctx.feat('hist:schwarz:' + ('same_decomposition' if (c['subdomain'], c['subdomain_ptr']) == (p_['subdomain'], p_['subdomain_ptr'])
+                                            else 'other_indices_same_ptr' if c['subdomain_ptr'] == p_['subdomain_ptr']
+                                            else 'same_indices_other_ptr' if c['subdomain'] == p_['subdomain'] else 'other_decomposition'))
+        if np.asarray(out).size and not np.max(np.abs(out)) < 1e12:
+            ctx.near_skipped += 1
+            ctx.feat('hist:skipped_diverged')
+            continue
+        if o is not None:
+            exact, close = _ext_compare(c, {}, o, out)
+            if exact:
+                ctx.feat('hist:bit_exact')
+            if not close:
+                ctx.corr(f'history call {k + 1}: {c["method"]}', {'kind': 'history', 'object': h['object'], 'calls': h['calls'][:k + 1]},
+                         o, np.asarray(out).tolist() if not np.iscomplexobj(out) else _jl(out))
+        judge_hist(ctx, h, k, out)
+
+
 def run(ctx):
     part_a(ctx, ctx.scale(1200, 24000))
     part_b(ctx, ctx.scale(420, 8400))
     part_c(ctx, ctx.scale(360, 7200))
+    part_d(ctx, ctx.scale(600, 12000))
+    part_e(ctx, ctx.scale(160, 3200))
 
 
 def search(ctx):
     part_c(ctx, 1500)
     part_b(ctx, 1500)
+    part_d(ctx, 1500)
+    part_e(ctx, 600)
 
 
 def replay(ctx, data):
@@ -628,5 +1765,17 @@ def replay(ctx, data):
             return
         judge_public(ctx, case, x)
         print('result', x.tolist(), 'reference', dense_reference(case).tolist())
+    elif case.get('kind') == 'history':
+        Aobj = hist_object(case)
+        for k, c in enumerate(case['calls']):
+            out, _bmod = hist_call(c, Aobj)
+            ref = ext_reference(c)
+            print('call', k + 1, _hist_brief(c), 'result', np.asarray(out).tolist(), 'reference', None if ref is None else np.asarray(ref).tolist())
+        judge_hist(ctx, case, len(case['calls']) - 1, out)
+    elif case.get('kind') == 'ext':
+        out, extra = ext_call(case)
+        ref = ext_reference(case)
+        judge_ext(ctx, case, out)
+        print('result', np.asarray(out).tolist(), 'reference', None if ref is None else np.asarray(ref).tolist())
     else:
         print('see the case description in the replay file (what/detail) to reproduce by hand')
